@@ -1,6 +1,6 @@
 From FV Require Import Common.ExtractTypes Common.EventLog Radix.RadixModel RadixConc.RAView RadixConc.ConcModel
-  RadixConc.ConcLog Gen.RadixConcOrders.
+  RadixConc.ConcLog RadixConc.ConcSkel.
 From Coq Require Extraction.
 From Coq Require Import ExtrOcamlBasic.
 Extraction "../build/extract/radixconc_model.ml" types_witness st0 log0 nodes root wop_okb op_msgs op_next op_case
-  find_sc r_done r_pc f_res lastval actual orders_sufficient run_conc sys_init s_rd s_log s_w w_done.
+  find_sc r_done r_pc f_res lastval c09_orders orders_sufficient run_conc sys_init s_rd s_log s_w w_done.
